@@ -325,7 +325,7 @@ fn monitors<M: RawMutex>(event: &GenericManualResetEvent<M>, model_set: bool, sl
     }
     snap.clear();
     event.verif_snapshot(&mut |it| snap.push(it));
-    let views: Vec<SlotView> = slots
+    let views: Views = slots
         .iter()
         .enumerate()
         .map(|(i, s)| SlotView { queue: 0, idx: i as u8, range: s.range(), pending: s.pending(), woken: s.woken() })
